@@ -186,7 +186,7 @@ class Run:
         return not bad
 
     # -- correspondence
-    def correspond(self, name, header, cases, shard=300, timeout=900, explain=True):
+    def correspond(self, name, header, cases, shard=300, timeout=900, explain=True, spec=False):
         """cases: list of Gallina case literals (strings).  header must Require the Corr module, which
         defines `failing : list case -> list nat` and `explain_failing : list case -> ...`.
         Returns the list of failing global indices (empty list = agreement)."""
@@ -198,6 +198,8 @@ class Run:
                 f.write(header + "\n")
                 f.write("Definition cases : list case := [\n" + ";\n".join(sh) + "\n].\n")
                 f.write("Eval vm_compute in (failing cases).\n")
+                if spec:
+                    f.write("Eval vm_compute in (spec_failing cases).\n")
                 if explain:
                     f.write("Eval vm_compute in (explain_failing cases).\n")
             paths.append(path)
@@ -223,12 +225,16 @@ class Run:
             if running:
                 time.sleep(0.05)
         failing = []
+        self.spec_failing = []
         for k, (rc, out) in enumerate(results):
             ok = rc == 0
             detail = ""
             local = []
             if ok:
+                ms = re.findall(r"=\s*(\[.*?\])\s*:\s*list nat", out, re.S)
                 m = re.search(r"=\s*(\[.*?\])\s*:\s*list nat", out, re.S)
+                if spec and len(ms) >= 2:
+                    self.spec_failing += [k * shard + int(x) for x in re.findall(r"(\d+)%nat", ms[1])]
                 if not m:
                     ok = False
                     detail = "could not parse coqc output: " + out[-1500:]
